@@ -46,6 +46,9 @@ func main() {
 	for i := 0; i < n; i++ {
 		r := rand.New(rand.NewSource(int64(i)))
 		o := gen.JSOpts{}
+		if mode == "yld" {
+			o = gen.JSOpts{CtxNames: true, YieldName: true, NoModuleItems: true}
+		}
 		if mode == "ctx" {
 			o = gen.JSOpts{CtxNames: true}
 		}
@@ -55,7 +58,7 @@ func main() {
 		p := gen.JSProgram(r, o)
 		for k, st := range []gen.JSStyle{{Parens: 1, Semi: 0, WS: 1}, {Parens: 0, Semi: 0, WS: 0, Seed: 1}, {Parens: 0, Semi: 1, WS: 2, Seed: 2}, {Parens: 2, Semi: 2, WS: 2, Seed: 3}} {
 			src, _ := gen.JSSpell(p, st)
-			os.WriteFile(filepath.Join(dir, fmt.Sprintf("p%05d_%d.mjs", i, k)), []byte(src), 0o644)
+			os.WriteFile(filepath.Join(dir, fmt.Sprintf("p%05d_%d.%s", i, k, map[bool]string{true: "cjs", false: "mjs"}[mode == "yld"])), []byte(src), 0o644)
 		}
 	}
 }
